@@ -113,6 +113,9 @@ def gen(rng):
     # radius right at the small-radius threshold 1e-4 * wavelength of the middle of the sweep
     steps = [f0 * (1 + 0.012 * k) for k in range(3)]
     thr = 1e-4 * 299.8 / steps[1]
+    # ... and a last step that changes the frequency by three parts in a million only (anything remembered "for the same
+    # frequency" with a tolerance would be reused here)
+    steps.append(steps[-1] * (1 + 3e-6))
     r1 = thr * rng.choice([1.0, 0.995, 1.005, 0.5, 3.0])
     r2 = thr * rng.choice([1.0, 1.004, 0.2, 2.0])
     L = lam * rng.uniform(0.2, 0.3)
